@@ -284,6 +284,29 @@ def c15_cases(workdir, quick=True):
                     "run": 1, "seq": 960, "t": 0})
     finally:
         s.close()
+    # a request passes the service's terminal check while the run is still working, the run ends by itself, and only then
+    # the request reaches the runtime (ServerStack.tla: SendCheck ... TermWriteOk ... SendLock, SendClear, SendForward)
+    for (label, prog, expect) in (("late_event_after_completion", sc.pipeline(timeout=50), "completed"),
+                                  ("late_event_after_failure", sc.pipeline(fail_until=99, timeout=50), "failed")):
+        db = os.path.join(str(workdir), "c15_%s.db" % label)
+        s = sv.ServerSystem(prog, db_path=db, idle_timeout=1000.0, backoff=(0.5, 3.0))
+        try:
+            s.launch()
+            s.start_handler("h1")
+            hd = s.send_checked("h1")
+            s.run_to_end(20000)
+            before = s.handler_row("h1")["status"]
+            if hd is not None:
+                s.send_after_check(hd, "Resp", "x1")
+            s.run_to_end(s.now_ms() + 20000)
+            writes = [{"status": r["status"], "ok": bool(r["ok"])} for r in s.trace if r["e"] == "status_write"]
+            row = s.handler_row("h1")
+            out.append({"e": "case", "label": label, "expect": expect if before == expect else "?" + before, "faults": 0,
+                        "store": "sqlite", "status": row["status"], "has_result": row["has_result"], "result": row["result"],
+                        "has_error": row["error"] != "", "run_ended": s.live_loops("h1") == 0, "writes": writes,
+                        "run": 1, "seq": 970, "t": 0})
+        finally:
+            s.close()
     # a later run in the SAME server process: earlier transient failures must not have used up its retry budget
     db = os.path.join(str(workdir), "c15_second.db")
     s = sv.ServerSystem(sc.pipeline(timeout=50), db_path=db, idle_timeout=1000.0, status_faults=2, backoff=(0.5, 3.0))
